@@ -249,7 +249,11 @@ func execSig(x *Exec, toks []string) string {
 			ai = app.AccountKeeper.NewAccountWithAddress(x.ctx, addr)
 		}
 		if toks[2] == "basekey" {
-			_ = ai.SetPubKey(secp256k1.GenPrivKey().PubKey())
+			var pub cryptotypes.PubKey = secp256k1.GenPrivKey().PubKey()
+			if kp := keyedPubFor(toks[1]); kp != nil {
+				pub = kp
+			}
+			_ = ai.SetPubKey(pub)
 			_ = ai.SetSequence(7)
 		}
 		app.AccountKeeper.SetAccount(x.ctx, ai)
@@ -536,7 +540,7 @@ func genSig(g *Gen, n int) {
 			pkJSON := string(pkBz)
 			switch g.intn(6) {
 			case 0:
-				target, class = vaddr(44+g.intn(3)), "nomatch"
+				target, class = keyedAddr(1+g.intn(3)), "nomatch"
 			case 1:
 				pkJSON, class = g.pick("", "{}", "not json", "{\"@type\":\"/cosmos.crypto.secp256k1.PubKey\",\"key\":\"AA\"}"), "bad"
 			case 2:
